@@ -14,7 +14,7 @@ from ..vloop import HarnessError
 from ..world import mk
 
 
-EARLY = ("ST",)
+EARLY = ("ST", "PR")  # unsolicited frames right behind the handshake message: a state and a ping request
 
 
 def run_session(name_variant: str, expected: bool, app: tuple[str, ...], cuts: tuple[int, ...], probe_send: bool = False,
@@ -106,6 +106,11 @@ def run_session(name_variant: str, expected: bool, app: tuple[str, ...], cuts: t
                 else:
                     names = w.sent_names()
                     want = ["HelloRequest", "ConnectRequest"] + ["PingResponse"] * sum(1 for k in app if k == "PR")
+                    # a ping request that arrives before the connect phase is over may or may not be answered (C12 says when)
+                    extra = sum(1 for k in EARLY if k == "PR")
+                    while extra and names.count("PingResponse") > want.count("PingResponse"):
+                        names.remove("PingResponse")
+                        extra -= 1
                     if names != want:
                         viol = f"client frames decrypted by the responder: {names}, expected {want}"
         return {"viol": viol, "n": len(stream), "chunks": len(bounds), "ends": ends, "reject": reject}
